@@ -21,6 +21,8 @@ type Input struct {
 	K     int        `json:"k"`    // crash: killed before DB-related call number k (0-based) of the history
 	Part  int        `json:"part"` // 0 = none; 1..3: the last completed write is cut to part/4 of its bytes
 	Hist2 []WriteOut `json:"hist2,omitempty"`
+	// Post: judge only the state after the further write-outs Hist2 (kill point between the two renames)
+	Post bool `json:"post,omitempty"`
 }
 
 func hashOf(v any) string {
@@ -280,15 +282,22 @@ func (e Env) RunCase(in Input) (*vhlib.Case, error) {
 	for i, b := range out.ok2 {
 		oks[i] = vhlib.CoqBool(b)
 	}
-	c.Coq = fmt.Sprintf("(CCrash %s %d %s %s %s %d %s %s %s %s)", CoqWs(mwAll[:len(in.Hist)]), in.K, part, ups, days, out.done,
+	ctor := "CCrash"
+	if in.Post {
+		ctor = "CCrashPost"
+	}
+	c.Coq = fmt.Sprintf("("+ctor+" %s %d %s %s %s %d %s %s %s %s)", CoqWs(mwAll[:len(in.Hist)]), in.K, part, ups, days, out.done,
 		CoqRead(out.rd), CoqWs(mwAll[len(in.Hist):]), cList(oks), CoqRead(out.rd2))
 	c.Observed = map[string]any{"done": out.done, "read": out.rd, "ok2": out.ok2, "read2": out.rd2, "killed_call": out.killedKind}
 	c.Tags = []string{"crash", "at-" + out.killedKind}
 	if in.K >= len(cal.Ops) {
 		c.Tags = []string{"crash", "no-crash"}
 	}
-	if StaleSuffix(cal.Ops, in.K) {
-		c.Tags = append(c.Tags, "stale-suffix")
+	if StaleSuffix(cal.Ops, in.K) && !in.Post {
+		c.Tags = append(c.Tags, "stale-suffix") // the state before the next write-out: the known finding
+	}
+	if in.Post {
+		c.Tags = append(c.Tags, "post-recovery", "between-renames-recovered")
 	}
 	if out.partN >= 0 {
 		c.Tags = append(c.Tags, "partial-write")
@@ -310,6 +319,23 @@ func (e Env) RunCase(in Input) (*vhlib.Case, error) {
 	}
 	c.Nontrivial = in.K > 0
 	return c, nil
+}
+
+// RecoveryFor builds the write-outs that follow a kill before DB call k: the first one goes to the day directory
+// that call k addresses (the interrupted write-out's day), with repetitive multi-flow data
+func RecoveryFor(hist []WriteOut, op Op, bulk int) []WriteOut {
+	last := hist[len(hist)-1]
+	w0 := WriteOut{ID: len(hist), Iface: last.Iface, TS: last.TS + 300, NV4: 1, NV6: 1, Drops: 1, Bulk: bulk}
+	var best int64 = -1
+	for _, w := range hist {
+		if id, _ := IfaceID(w.Iface); id == op.A.Iface && w.TS-w.TS%86400 == op.A.Day && w.TS > best {
+			best = w.TS
+		}
+	}
+	if best >= 0 && (best+150)-(best+150)%86400 == op.A.Day {
+		w0.Iface, w0.TS = fmt.Sprintf("eth%d", op.A.Iface), best+150
+	}
+	return []WriteOut{w0, {ID: len(hist) + 1, Iface: last.Iface, TS: last.TS + 86400 + 600, NV4: 1, NV6: 0, Drops: 0}}
 }
 
 // RealPath finds the real path of an abstract file reference in a tree (the day directory by prefix)
